@@ -61,7 +61,7 @@ CHECKS = {
         "level_note": "Trusts the std::set reference model and that stored records respect the table's precondition (host bits zero, length <= width).",
         "stages": [{"driver": TABLES,
                     "quick": {"procs": 8, "rc": (6000, 100)},
-                    "thorough": {"procs": 16, "rc": (25000, 300), "timeout": 7200}}],
+                    "thorough": {"procs": 16, "rc": (12000, 300), "timeout": 7200}}],
     },
     "C02": {
         "level": "exploration",
@@ -77,7 +77,7 @@ CHECKS = {
         "level_note": "Trusts the std::set model; sources are compared by socket pointer identity as the library does.",
         "stages": [{"driver": TABLES,
                     "quick": {"procs": 8, "rc": (6000, 100)},
-                    "thorough": {"procs": 16, "rc": (25000, 300), "timeout": 7200}}],
+                    "thorough": {"procs": 16, "rc": (12000, 300), "timeout": 7200}}],
     },
     "C09": {
         "level": "exploration",
@@ -93,7 +93,7 @@ CHECKS = {
         "level_note": "Trusts the std::set model. Only single-threaded histories (the log is per table; ordering across threads is not part of the property).",
         "stages": [{"driver": TABLES,
                     "quick": {"procs": 8, "rc": (6000, 100)},
-                    "thorough": {"procs": 16, "rc": (25000, 300), "timeout": 7200}}],
+                    "thorough": {"procs": 16, "rc": (12000, 300), "timeout": 7200}}],
     },
     "C10": {
         "level": "exploration",
@@ -112,7 +112,7 @@ CHECKS = {
         "level_note": "Trusts the std::set model. Lookups are compared as multisets of full records.",
         "stages": [{"driver": SPKI,
                     "quick": {"procs": 8, "rc": (1200, 100)},
-                    "thorough": {"procs": 16, "rc": (15000, 250), "timeout": 7200}}],
+                    "thorough": {"procs": 16, "rc": (8000, 250), "timeout": 7200}}],
     },
     "C19": {
         "level": "exploration",
@@ -163,7 +163,7 @@ CHECKS = {
         "level_note": "Trusts the judge and the record universe (52 ids + bulk). 'One response' is delimited as the client delimits it; after a fault the scripted cache stops unless the rest cannot be mistaken for a new response.",
         "stages": [{"driver": CONV,
                     "quick": {"procs": 8, "rc": (500, 100)},
-                    "thorough": {"procs": 16, "rc": (15000, 100), "timeout": 7200}}],
+                    "thorough": {"procs": 16, "rc": (5000, 100), "timeout": 7200}}],
     },
     "C05": {
         "level": "exploration",
@@ -176,7 +176,7 @@ CHECKS = {
         "level_note": 'Trusts the judge; serial arithmetic is exercised around 2^31 and 2^32-1 through the serial bases.',
         "stages": [{"driver": CONV,
                     "quick": {"procs": 8, "rc": (500, 100)},
-                    "thorough": {"procs": 16, "rc": (15000, 100), "timeout": 7200}}],
+                    "thorough": {"procs": 16, "rc": (5000, 100), "timeout": 7200}}],
     },
     "C07": {
         "level": "exploration",
@@ -189,7 +189,7 @@ CHECKS = {
         "level_note": "last_success is the model's (time of the last ESTABLISHED callback), not the socket's field, so a lost timestamp is visible.",
         "stages": [{"driver": CONV,
                     "quick": {"procs": 8, "rc": (500, 100)},
-                    "thorough": {"procs": 16, "rc": (15000, 100), "timeout": 7200}}],
+                    "thorough": {"procs": 16, "rc": (5000, 100), "timeout": 7200}}],
     },
     "C08": {
         "level": "exploration",
@@ -202,7 +202,7 @@ CHECKS = {
         "level_note": "Hitting the 80000-call step cap is counted as inconclusive, never as a violation. In conversations that went 'weak' (hostile payload) only termination is required.",
         "stages": [{"driver": CONV,
                     "quick": {"procs": 8, "rc": (500, 100)},
-                    "thorough": {"procs": 16, "rc": (15000, 100), "timeout": 7200}}],
+                    "thorough": {"procs": 16, "rc": (5000, 100), "timeout": 7200}}],
     },
     "C13": {
         "level": "exploration",
@@ -215,7 +215,7 @@ CHECKS = {
         "level_note": 'Not demanded: lowering on a first PDU that is an Error Report (ambiguous in the statement).',
         "stages": [{"driver": CONV,
                     "quick": {"procs": 8, "rc": (500, 100)},
-                    "thorough": {"procs": 16, "rc": (15000, 100), "timeout": 7200}}],
+                    "thorough": {"procs": 16, "rc": (5000, 100), "timeout": 7200}}],
     },
     "C14": {
         "level": "exploration",
@@ -228,7 +228,7 @@ CHECKS = {
         "level_note": 'Uninitialised bytes are looked for by the printable-text rule and by the dirty-pattern determinism stage (stack/heap filled with 0x00 vs 0xFF), not with MSan.',
         "stages": [{"driver": CONV,
                     "quick": {"procs": 8, "rc": (500, 100)},
-                    "thorough": {"procs": 16, "rc": (15000, 100), "timeout": 7200}}],
+                    "thorough": {"procs": 16, "rc": (5000, 100), "timeout": 7200}}],
     },
     "C17": {
         "level": "exploration",
@@ -241,7 +241,7 @@ CHECKS = {
         "level_note": 'The per-field application order inside the library (expire, refresh, retry) is tolerated for failed exchanges.',
         "stages": [{"driver": CONV,
                     "quick": {"procs": 8, "rc": (500, 100)},
-                    "thorough": {"procs": 16, "rc": (15000, 100), "timeout": 7200}}],
+                    "thorough": {"procs": 16, "rc": (5000, 100), "timeout": 7200}}],
     },
     "C11": {
         "level": "exploration",
@@ -329,7 +329,7 @@ CHECKS = {
         "level_note": "Only single failures (one NULL per run). The synchronisation part (temporary PDU stores, shadow tables inside rtr_sync) is covered by the conversation stage.",
         "stages": [{"driver": ALLOCFAIL,
                     "quick": {"procs": 8, "rc": (25, 50)},
-                    "thorough": {"procs": 16, "rc": (400, 80), "timeout": 7200}}],
+                    "thorough": {"procs": 16, "rc": (150, 80), "timeout": 7200}}],
     },
     "C06": {
         "level": "exploration",
@@ -346,7 +346,7 @@ CHECKS = {
         "level_note": "Deterministic single-threaded observation; real reader threads against a reload are not run here (lock discipline is examined by C16).",
         "stages": [{"driver": CONV,
                     "quick": {"procs": 8, "rc": (300, 100)},
-                    "thorough": {"procs": 16, "rc": (10000, 100), "timeout": 7200}}],
+                    "thorough": {"procs": 16, "rc": (4000, 100), "timeout": 7200}}],
     },
     "C04": {
         "level": "exploration",
@@ -364,13 +364,13 @@ CHECKS = {
         "level_note": "A wall-clock limit or a libFuzzer timeout/oom artifact is counted as inconclusive, never as a violation.",
         "stages": [{"driver": CONV,
                     "quick": {"procs": 6, "rc": (250, 100)},
-                    "thorough": {"procs": 16, "rc": (12000, 100), "timeout": 7200}},
+                    "thorough": {"procs": 16, "rc": (5000, 100), "timeout": 7200}},
                    {"driver": CONV, "args": ["--mode", "chunk"],
                     "quick": {"procs": 4, "rc": (200, 100)},
-                    "thorough": {"procs": 16, "rc": (8000, 100), "timeout": 7200}},
+                    "thorough": {"procs": 16, "rc": (3000, 100), "timeout": 7200}},
                    {"type": "libfuzzer", "driver": CONV_FUZZ, "replay_driver": CONV,
                     "quick": {"procs": 4, "runs": 6000, "max_len": 600},
-                    "thorough": {"procs": 16, "runs": 100000, "max_len": 2048, "timeout": 7200}}],
+                    "thorough": {"procs": 16, "runs": 40000, "max_len": 2048, "timeout": 7200}}],
     },
 }
 
@@ -383,14 +383,14 @@ def _conv_stage(quick, thorough, args=None, procs_q=6):
 
 
 # conversation parts of the table-callback properties: rollback, reload diff, expiry purge, stop
-CHECKS["C09"]["stages"].append(_conv_stage((300, 100), (10000, 100)))
+CHECKS["C09"]["stages"].append(_conv_stage((300, 100), (4000, 100)))
 CHECKS["C09"]["engine"] = "rapidcheck + convsim"
-CHECKS["C10"]["stages"].append(_conv_stage((300, 100), (10000, 100)))
+CHECKS["C10"]["stages"].append(_conv_stage((300, 100), (4000, 100)))
 CHECKS["C10"]["engine"] = "rapidcheck + convsim"
 CHECKS["C10"]["rule"] += (" Stage conv: in generated conversations (see C03) the router-key callback log must equal the router-key table at every observation point "
                           "(after rollbacks, reload diffs - exactly the net difference -, expiry purges, stops).")
 # C14: no byte sent stems from uninitialised memory — determinism under two dirtying patterns
-CHECKS["C14"]["stages"].append(_conv_stage((200, 100), (8000, 100), ["--mode", "dirty"], procs_q=4))
+CHECKS["C14"]["stages"].append(_conv_stage((200, 100), (3000, 100), ["--mode", "dirty"], procs_q=4))
 CHECKS["C14"]["rule"] += (" Stage dirty: every conversation is run twice, with the stack below every transport call and every heap block of the library pre-filled with 0x00 resp. 0xFF; "
                           "the complete outbound byte log must be identical.")
 # C17 (a): range check at initialisation
@@ -399,16 +399,17 @@ CHECKS["C17"]["exhaustive_note"] = "stage intervals: the 9x9x9 grid of boundary 
 CHECKS["C17"]["rule"] = ("Stage intervals: rtr_init and rtr_mgr_init are called with every triple of the 9-value boundary grid per interval (exhaustive, 729 triples) and with random triples: error iff some value is outside its RFC 8210 range, values stored unchanged otherwise. Stage conv: "
                          + CHECKS["C17"]["rule"])
 # C18 (b): allocation failures during synchronisations
-CHECKS["C18"]["stages"].append(_conv_stage((4, 40), (40, 80), ["--mode", "alloc"], procs_q=8))
+CHECKS["C18"]["stages"].append(_conv_stage((4, 40), (12, 60), ["--mode", "alloc"], procs_q=8))
 CHECKS["C18"]["stages"][-1]["quick"]["args"] = ["--maxk", "600"]
+CHECKS["C18"]["stages"][-1]["thorough"]["args"] = ["--maxk", "1000"]
 CHECKS["C18"]["engine"] = "rapidcheck + per-fault re-execution + convsim"
 CHECKS["C18"]["rule"] += (" Stage conv: for generated conversations (see C03) run 0 counts the allocations the library makes while synchronising (temporary PDU stores incl. >100 PDU payloads, shadow tables, hash-table growth, undo paths); "
-                          "a conversation that ends converged must leave the ledger empty; then every allocation index (every k up to the stage's limit - 600 quick, 1500 thorough - else that many evenly spaced) is failed once: no crash, and all conversation oracles (either-or of C03, callbacks, convergence) must still hold.")
+                          "a conversation that ends converged must leave the ledger empty; then every allocation index (every k up to the stage's limit - 600 quick, 1000 thorough - else that many evenly spaced) is failed once: no crash, and all conversation oracles (either-or of C03, callbacks, convergence) must still hold.")
 
 # thorough tier only: coverage-guided exploration (libFuzzer over the byte encoding of scripts) with the property's own oracles in the target
 for _p in ("C03", "C05", "C07", "C08", "C13", "C14", "C17"):
     CHECKS[_p]["stages"].append({"type": "libfuzzer", "driver": CONV_FUZZ, "replay_driver": CONV, "tiers": ("thorough",), "seed_prop": "C04",
-                                 "thorough": {"procs": 16, "runs": 30000, "max_len": 2048, "timeout": 7200}})
+                                 "thorough": {"procs": 16, "runs": 8000, "max_len": 2048, "timeout": 7200}})
     CHECKS[_p]["rule"] += (" Thorough tier adds a libFuzzer stage (ASan+UBSan, coverage-guided) over the byte encoding of scripts with the same engine and oracles; "
                            "half of the workers start from the committed seed corpus, half from an empty one.")
 
